@@ -66,7 +66,8 @@ NpFails(r, net, par, opts, x, u, d) ==
            mism == {s \in StateSlots(net) : ~CloseOrUndef(Expected(y, fl, s), ObsY(net, o.y, s), Tol, ScaleOf(net, par, xc, u, d, s))}
            defined == Defined(net, xc) /\ Admissible(net, xc, u, d)
            nonfinite == IF defined THEN {s \in StateSlots(net) : ~RIsFinite(ObsY(net, o.y, s))} ELSE {}
-           plain == opts = NoOpts /\ defined
+           \* balances hold for ANY state (negative ones too): only the model's own 0/0 and non-finite values are excluded
+           plain == opts = NoOpts /\ Defined(net, xc) /\ AllFinite(y) /\ AllFinite(yo)
            \* network-wide balance on the implementation's own inputs and outputs
            sumabs == Sum(Links(net), LAMBDA l : Sum(Segs(net, l), LAMBDA i : RAbs((yo.rho[l][i] (.) net.links[l].lam) (.) net.links[l].L)))
                      (+) Sum(Queued(net), LAMBDA q : RAbs(yo.w[q])) (+) RAbs(Balance(net, par, x, u, d))
@@ -106,6 +107,8 @@ NpFails(r, net, par, opts, x, u, d) ==
            rep == IF o.pure.has
                   THEN {s \in StateSlots(net) : ~(RIsNaN(ObsY(net, o.y, s)) /\ RIsNaN(ObsY(net, o.pure.y2, s))) /\ ObsY(net, o.y, s) # ObsY(net, o.pure.y2, s)}
                        \cup {s \in StateSlots(net) : ~(RIsNaN(ObsY(net, o.y, s)) /\ RIsNaN(ObsY(net, o.pure.y3, s))) /\ ObsY(net, o.y, s) # ObsY(net, o.pure.y3, s)}
+                       \* the same array OBJECTS refilled in place with other values vs. fresh arrays with those values on a fresh network
+                       \cup {s \in StateSlots(net) : ~(RIsNaN(ObsY(net, o.pure.y4, s)) /\ RIsNaN(ObsY(net, o.pure.y5, s))) /\ ObsY(net, o.pure.y4, s) # ObsY(net, o.pure.y5, s)}
                   ELSE {}
        IN {<<"np.y", s>> : s \in mism}
           \cup {<<"np.repeat", s>> : s \in rep}
@@ -217,7 +220,10 @@ FnFails(r, k, net0, par0, opts, elems) ==
                                 ~RClose(OutV(s), ObsY(net, r.obs.np.y, s), TolX, ScaleOf(net, par, xc, u, d, s))}
                         ELSE {}
                 \* C02 on the function's own inputs and outputs (x+, q, q_o)
-                plain == f.more_out /\ opts = NoOpts /\ defined
+                yo0 == [rho |-> [l \in Links(net) |-> [i \in Segs(net, l) |-> OutV(<<"rho", l, i>>)]],
+                        v |-> [l \in Links(net) |-> [i \in Segs(net, l) |-> OutV(<<"v", l, i>>)]],
+                        w |-> [o \in Queued(net) |-> OutV(<<"w", o, 1>>)]]
+                plain == f.more_out /\ opts = NoOpts /\ Defined(net, xc) /\ AllFinite(y) /\ AllFinite(yo0)
                 yo == [rho |-> [l \in Links(net) |-> [i \in Segs(net, l) |-> OutV(<<"rho", l, i>>)]],
                        v |-> [l \in Links(net) |-> [i \in Segs(net, l) |-> OutV(<<"v", l, i>>)]],
                        w |-> [o \in Queued(net) |-> OutV(<<"w", o, 1>>)]]
